@@ -196,7 +196,7 @@ impl TreePainter {
 
         // Serialize max alloc counts and sizes early so we can resize columns
         // early.
-        let serialized_max_alloc_counts = if stats.max_alloc.size.is_zero() {
+        let serialized_max_alloc_counts = if stats.max_alloc.is_zero() {
             None
         } else {
             Some(TreeColumn::ALL.map(|column| {
@@ -211,7 +211,7 @@ impl TreePainter {
             }))
         };
 
-        let serialized_max_alloc_sizes = if stats.max_alloc.size.is_zero() {
+        let serialized_max_alloc_sizes = if stats.max_alloc.is_zero() {
             None
         } else {
             Some(TreeColumn::ALL.map(|column| {
